@@ -203,6 +203,8 @@ def gen_leaf(sp, rng, ish, kinds=None, cplx=True):
                 D = rng.randint(1, min(nd, 3))
                 npts = rng.randint(1, 4)
                 coord = np.array([[coord_val(rng, ish[-D + d]) for d in range(D)] for _ in range(npts)])
+                if k == "interp" and rng.random() < 0.15:
+                    coord = np.rint(coord).astype(np.int64)      # grid positions handed over as an integer array (defect F25)
                 if k == "interp":
                     wch, pch = [1, 2, 3, 2.5], [0, 1, 2]
                     width = rng.choice(wch) if rng.random() < 0.5 else tuple(rng.choice(wch) for _ in range(D))
@@ -215,6 +217,8 @@ def gen_leaf(sp, rng, ish, kinds=None, cplx=True):
                 npts = ish[-1]
                 grid = [rng.randint(2, 4 if D < 3 else 3) for _ in range(D)]
                 coord = np.array([[coord_val(rng, g) for g in grid] for _ in range(npts)])
+                if k == "gridding" and rng.random() < 0.15:
+                    coord = np.rint(coord).astype(np.int64)
                 osh = ish[:-1] + grid
                 if k == "gridding":
                     wch, pch = [1, 2, 3, 2.5], [0, 1, 2]
